@@ -40,11 +40,13 @@ fn main() {
         "C08" => drive(props::c08::C08, mode, file),
         "C09" => drive(props::c09::C09, mode, file),
         "C10" => drive(props::c02::C10, mode, file),
+        "C03" => drive(props::c03::C03, mode, file),
         "C04" => drive(props::c04::C04, mode, file),
         "C05" => drive(props::c05::C05, mode, file),
         "C11" => drive(props::c11::C11, mode, file),
         "C13" => drive(props::c13::C13, mode, file),
         "C14" => drive(props::c14::C14, mode, file),
+        "C15" => drive(props::c15::C15, mode, file),
         "C19" => drive(props::c19::C19, mode, file),
         "C12" => drive(props::c11::C12, mode, file),
         other => {
